@@ -10,7 +10,7 @@ trap 'rm -rf "$SCRATCH"' EXIT
 rsync -a --exclude .git --exclude '__pycache__' --exclude '*.egg-info' /repo/ "$SCRATCH/"
 if ! patch -s -p1 -d "$SCRATCH" < "$DIR/patch.diff"; then echo "SEED $ID: patch does not apply"; exit 4; fi
 T=$(cd "$SCRATCH" && timeout 600 /venv/bin/python -m pytest -q -p no:cacheprovider --continue-on-collection-errors 2>&1 | tail -1)
-COMPAT="$DIR"; [ -f "$DIR/xdsl_compat.py" ] || COMPAT=/tmp/seed
+COMPAT="$(dirname "$DIR")"   # xdsl_compat.py (the import shim the demonstrations use) sits beside the per-property directories
 PYTHONPATH="$COMPAT" timeout 900 /venv/bin/python "$DIR/demo.py" /repo >/dev/null 2>&1; D0=$?
 PYTHONPATH="$COMPAT" timeout 900 /venv/bin/python "$DIR/demo.py" "$SCRATCH" >/dev/null 2>&1; D1=$?
 OUT="$(VERIF_REPO="$SCRATCH" ./check "$ID" --no-evidence "$@" 2>/dev/null)"; RC=$?
